@@ -63,6 +63,24 @@ func (r *Runner) sampleCommit() {
 					in.ID(), lt, st.lastCommit, ci, ci, l.Term, lt, d.LogString())
 			}
 		}
+		// C18/R2: LeaderCh holds the latest transition whatever the speed of the
+		// NotifyCh consumer. At the first cut after a server stopped being leader
+		// (it may be blocked handing "false" to a slow NotifyCh consumer) its
+		// LeaderCh must not still say "true". (Read once per incarnation; the
+		// end-of-run rule knows about it.)
+		if st.leaderTerm != 0 && lt == 0 && in.NotifyCh != nil && !st.peeked && in.R.State() != raft.Shutdown {
+			st.peeked, st.peekStates = true, leadershipTransitions(in)
+			select {
+			case v := <-in.R.LeaderCh():
+				st.peekedValue, st.peekedSomething = v, true
+				if v {
+					w.ViolateLocked("C18", "R2", "C18/R2/leaderch-still-true-after-leadership-was-lost",
+						"%s/%d is %v (was Leader of term %d at the previous cut) but LeaderCh still holds true", in.ID(), in.Gen, in.R.State(), st.leaderTerm)
+				}
+			default:
+			}
+			r.feat("leaderch-read-right-after-step-down")
+		}
 		st.leaderTerm = lt
 		w.O.CheckLatestCfg(in, in.R.GetConfiguration().Configuration())
 		if ci > st.lastCommit {
@@ -73,9 +91,24 @@ func (r *Runner) sampleCommit() {
 	}
 }
 
+// leadershipTransitions counts gains and losses of leadership an incarnation has observed (caller holds W.Mu).
+func leadershipTransitions(in *sim.Instance) int {
+	n, was := 0, false
+	for _, s := range in.States {
+		if is := s.State == raft.Leader; is != was {
+			n++
+			was = is
+		}
+	}
+	return n
+}
+
 type instState struct {
 	lastCommit uint64
 	leaderTerm uint64 // term in which the server was leader at the previous cut (0: was not)
+	// LeaderCh read once in mid-run (C18/R2)
+	peeked, peekedSomething, peekedValue bool
+	peekStates                           int // leadership transitions seen at that moment
 }
 
 func (r *Runner) perInst(in *sim.Instance) *instState {
